@@ -28,7 +28,10 @@ let () = run (fun case impl ->
          operand count, so there is no encoding *)
       let wrong_arity = Stdlib.List.mem "#" toks in
       if wrong_arity then count "A.wrong_operand_count";
-      let expected = if wrong_arity || (Stdlib.List.mem "!" toks && nbiased > 0) then None else StmtSpec.expected_bytes i addr_n tgt in
+      (* "% <ident>": the identifier operand was replaced; ovr=diff: it is not the documented name in any letter case *)
+      let wrong_name = Stdlib.List.mem "%" toks && field impl "ovr=" = "diff" in
+      if Stdlib.List.mem "%" toks then count ("A.identifier_override." ^ field impl "ovr=");
+      let expected = if wrong_name || wrong_arity || (Stdlib.List.mem "!" toks && nbiased > 0) then None else StmtSpec.expected_bytes i addr_n tgt in
       if Stdlib.List.mem "!" toks then count ("A.biased." ^ (if nbiased > 0 then "operand" else "none"));
       (match expected with
        | Some bytes ->
